@@ -6,6 +6,7 @@ insertion from a 14-byte alphabet at every offset, and the must-reject framing c
 through the real handle() of all three in-process workers and for TCP and unix-socket peers; the
 same worker object then serves a plain request.  Oracle: application call counter vs responses,
 strict reader of the error reply, server-side close, no escaping exception, worker alive."""
+import os
 import random
 
 from vlib import bench, par, rfc_request, rfc_response
@@ -285,6 +286,145 @@ def _accept_errors_task(t):
     return {"evals": n, "viols": viols, "outcomes": {"accept-errors": n}, "key": repr(("A",) + tuple(t))}
 
 
+class StreamFirstApp:
+    """Starts streaming its response before it has looked at the request body."""
+
+    def __init__(self):
+        self.calls = []
+
+    def __call__(self, environ, start_response):
+        self.calls.append((environ["REQUEST_METHOD"], environ["RAW_URI"]))
+        start_response("200 OK", [("Content-Type", "text/plain")])
+
+        def gen():
+            yield b"early-part;"
+            body = environ["wsgi.input"].read()
+            yield b"got %d" % len(body)
+        return gen()
+
+
+def _stream_first_task(t):
+    """A request whose body turns out to be malformed only after the application began to answer: the reply already on the
+    wire cannot be taken back - no second reply may be spliced into it."""
+    import re
+    (wi,) = t
+    kind, kw = WORKERS[wi]
+    app = StreamFirstApp()
+    b = bench.Bench(kind, kw, app)
+    viols = []
+    n = 0
+    head = b"POST /s HTTP/1.1\r\nHost: h\r\nTransfer-Encoding: chunked\r\n\r\n"
+    bodies = [b"3\r\nabc\r\nZZ\r\nq\r\n0\r\n\r\n", b"3\r\nabc\r\n3\r\nabcXX0\r\n\r\n", b"3\r\nabc\r\n-1\r\n\r\n", b"3\r\nabc\r\n1;\x00\r\na\r\n0\r\n\r\n",
+              b"3\r\nabc\r\n0\r\nBad Trailer\r\n\r\n", b"3\r\nab", b"3\r\nabc\r\n5\r\nab"]
+    cl = [b"POST /s HTTP/1.1\r\nHost: h\r\nContent-Length: 10\r\n\r\nabc"]
+    try:
+        for stream in [head + x for x in bodies] + cl:
+            for ending in ("halfclose", "close"):
+                app.calls = []
+                o = b.connection(stream + (NEXT if ending == "halfclose" and stream.startswith(head) else b""), ending=ending, peer=PEER_TCP)
+                n += 1
+                v = None
+                nstatus = len(re.findall(rb"HTTP/1\.[01] \d{3} ", o.wire))
+                if o.exc:
+                    v = ("exception-escaped-handle", o.exc)
+                elif nstatus > max(len(app.calls), 1):
+                    v = ("second-reply-spliced-into-response", "the application was called %d time(s) and had started its reply when the request body turned out malformed: "
+                         "the connection carries %d status lines: %r" % (len(app.calls), nstatus, o.wire[:260]))
+                elif ending == "halfclose" and not o.server_closed:
+                    v = ("connection-left-open", "the server end stayed open")
+                if v:
+                    viols.append(violation(v[0] + ":stream-first:" + kind, "worker=%s %r stream %r: %s" % (kind, kw, stream[-40:], v[1]), {"stream_first": [wi]}))
+                    return {"evals": n, "viols": viols, "outcomes": {"stream-first": n}, "key": repr(("S",) + tuple(t))}
+    finally:
+        b.close()
+    return {"evals": n, "viols": viols, "outcomes": {"stream-first": n}, "key": repr(("S",) + tuple(t))}
+
+
+def _tls_cell(cell):
+    """A TLS listener and clients that are not TLS clients at all (plaintext, garbage, hang-up during the handshake): the
+    worker lives and serves the next real client.  Needs the openssl tool for a throw-away certificate; skipped without it."""
+    import shutil as _sh
+    import socket
+    import ssl
+    import subprocess
+    import tempfile
+    import time
+    from vlib import realproc as rp
+    wc, on_connect = cell
+    exe = _sh.which("openssl") or ("/root/miniconda/bin/openssl" if os.path.exists("/root/miniconda/bin/openssl") else None)
+    if exe is None:
+        return "skip"
+    d = tempfile.mkdtemp(prefix="verif-c05-tls-", dir="/dev/shm" if os.path.isdir("/dev/shm") else None)
+    try:
+        key, crt = os.path.join(d, "k.pem"), os.path.join(d, "c.pem")
+        r = subprocess.run([exe, "req", "-x509", "-newkey", "rsa:2048", "-nodes", "-keyout", key, "-out", crt, "-days", "2", "-subj", "/CN=localhost"],
+                           capture_output=True, timeout=60)
+        if r.returncode != 0 or not os.path.exists(crt):
+            return "skip"
+        os.chmod(d, 0o755)
+        os.chmod(key, 0o644)
+        s = rp.Server(worker_class=wc, workers=1, bind="tcp", graceful_timeout=2, timeout=30, threads=2 if wc == "gthread" else None,
+                      extra={"certfile": crt, "keyfile": key, "do_handshake_on_connect": on_connect})
+        try:
+            if not s.start():
+                return ("infrastructure", "TLS server did not start: %s" % s.log_text()[-200:])
+            time.sleep(0.3)
+            before = set(s.workers())
+            for label, payload in (("plaintext", b"GET / HTTP/1.1\r\nHost: h\r\n\r\n"), ("garbage", b"\x16\x03\x01\x00\x05hello"), ("hang-up", b""),
+                                   ("half-record", b"\x16\x03\x01\x02\x00\x01\x00")):
+                c = socket.create_connection(("127.0.0.1", s.port), timeout=3)
+                try:
+                    if payload:
+                        c.sendall(payload)
+                    c.settimeout(1.0)
+                    try:
+                        c.recv(4096)
+                    except OSError:
+                        pass
+                finally:
+                    c.close()
+                time.sleep(0.4)
+                now = set(s.workers())
+                if now != before:
+                    return ("worker-replaced-after-hostile-tls-client", "%s worker, do_handshake_on_connect=%s: after a %s client the worker set changed %r -> %r: %s" % (
+                        wc, on_connect, label, sorted(before), sorted(now), [l for l in s.log_text().splitlines() if "Exception" in l or "Error" in l][-2:]))
+            ctx = ssl.create_default_context()
+            ctx.check_hostname = False
+            ctx.verify_mode = ssl.CERT_NONE
+            raw = socket.create_connection(("127.0.0.1", s.port), timeout=5)
+            t = ctx.wrap_socket(raw, server_hostname="localhost")
+            t.sendall(b"GET /plain HTTP/1.1\r\nHost: h\r\nConnection: close\r\n\r\n")
+            data = b""
+            try:
+                while True:
+                    chunk = t.recv(65536)
+                    if not chunk:
+                        break
+                    data += chunk
+            except OSError:
+                pass
+            t.close()
+            if not data.startswith(b"HTTP/1.1 200"):
+                return ("follow-up-request-not-served", "%s worker: a real TLS client after the hostile ones got %r" % (wc, data[:60]))
+            return None
+        finally:
+            s.cleanup()
+    finally:
+        _sh.rmtree(d, ignore_errors=True)
+
+
+def _tls_task(t):
+    cell = tuple(t)
+    v = _tls_cell(cell)
+    if v in (None, "skip"):
+        return {"evals": 1, "viols": [], "outcomes": {"tls-skip" if v == "skip" else "tls": 1}, "key": repr(("T",) + cell)}
+    v2 = _tls_cell(cell)            # a real-process anomaly counts only if it reproduces
+    viols = []
+    if v2 not in (None, "skip") and v2[0] == v[0] and v[0] != "infrastructure":
+        viols.append(violation(v[0] + ":" + cell[0], v[1], {"tls": list(cell)}))
+    return {"evals": 1, "viols": viols, "outcomes": {"tls": 1}, "key": repr(("T",) + cell)}
+
+
 class _Veto(Exception):
     pass
 
@@ -349,6 +489,10 @@ def _dispatch(t):
         return _accept_errors_task(t[1:])
     if t[0] == "V":
         return _veto_task(t[1:])
+    if t[0] == "S":
+        return _stream_first_task(t[1:])
+    if t[0] == "T":
+        return _tls_task(t[1:])
     return _task(t)
 
 
@@ -390,6 +534,10 @@ def run(ctx):
         tasks.append(("A", threads))
     for wi in range(len(WORKERS)):
         tasks.append(("V", wi))
+        tasks.append(("S", wi))
+    for wc in ("sync", "gthread", "gevent"):
+        for on_connect in (True, False):
+            tasks.append(("T", wc, on_connect))
     random.Random(ctx.seed).shuffle(tasks)
     res = par.pmap(_dispatch, tasks)
     res.sort(key=lambda r: r["key"])
@@ -421,6 +569,12 @@ def run(ctx):
 def replay(case):
     if "accept_errors" in case:
         r = _accept_errors_task(tuple(case["accept_errors"]))
+        return r["viols"][0] if r["viols"] else None
+    if "tls" in case:
+        r = _tls_task(tuple(case["tls"]))
+        return r["viols"][0] if r["viols"] else None
+    if "stream_first" in case:
+        r = _stream_first_task(tuple(case["stream_first"]))
         return r["viols"][0] if r["viols"] else None
     if "veto" in case:
         r = _veto_task(tuple(case["veto"]))
